@@ -16,7 +16,7 @@ func (c09) ID() string { return "C09" }
 
 func (c09) Budget(tier string) int {
 	if tier == "thorough" {
-		return len(allCartConfigs) * 300
+		return len(allCartConfigs) * 1200
 	}
 	return len(allCartConfigs) * 40
 }
